@@ -13,12 +13,12 @@ namespace Writer
 
 /-- Deviation flags (DESIGN 4.4).  `spec` = all off. -/
 structure WQuirks where
-  /-- css/comment.rs `Comment::write`: in compressed style the re-indentation still runs with
+  /-- (repaired by b20c1a1) css/comment.rs `Comment::write`: in compressed style the re-indentation still runs with
   `get_indent(..) = ""`: `Greater` deletes the line breaks, `Equal` keeps them and `Less`
   does `text.replace("", "\n")`, i.e. inserts a line break between all characters.
   Off: compressed style writes the comment text with every line break replaced by a space. -/
   commentReindentCompressed : Bool := false
-  /-- css/atrule.rs `AtRule::write`: the argument text is written as it is, line breaks
+  /-- (repaired by b5e4a2e) css/atrule.rs `AtRule::write`: the argument text is written as it is, line breaks
   included (only `Property::write` does `.replace('\n', " ")`).
   Off: in compressed style line breaks in at-rule arguments are replaced by a space. -/
   atArgsRawCompressed : Bool := false
@@ -29,7 +29,10 @@ structure WQuirks where
   deriving DecidableEq, Repr
 
 def WQuirks.spec : WQuirks := {}
-def WQuirks.asis : WQuirks :=
+/-- the code as it is (since b20c1a1 and b5e4a2e) -/
+def WQuirks.asis : WQuirks := { atomsUnchecked := true }
+/-- the code before b20c1a1 / b5e4a2e -/
+def WQuirks.old : WQuirks :=
   { commentReindentCompressed := true, atArgsRawCompressed := true, atomsUnchecked := true }
 
 mutual
@@ -166,9 +169,18 @@ def atArgsText (q : WQuirks) (s : Style) (a : Atom) : Bytes :=
     (a.get s).map fun x => if x = 10 then 32 else x
   else a.get s
 
+/-- `# sourceMappingURL=` -/
+def srcMapPrefix : Bytes := [35, 32, 115, 111, 117, 114, 99, 101, 77, 97, 112, 112, 105, 110, 103, 85, 82, 76, 61]
+/-- `# sourceURL=` -/
+def srcUrlPrefix : Bytes := [35, 32, 115, 111, 117, 114, 99, 101, 85, 82, 76, 61]
+
+/-- the comments `Comment::write` ignores (since 01d06ad only the source-map comments; before,
+every comment starting with `#`) -/
+def skipComment (text : Bytes) : Bool := srcMapPrefix.isPrefixOf text || srcUrlPrefix.isPrefixOf text
+
 /-- `Comment::write` -/
 def writeComment (q : WQuirks) (s : Style) (text : Bytes) (b : Buf) : Buf :=
-  if text.head? = some 35 then b.addOne s [10] []          -- starts_with('#')
+  if skipComment text then b.addOne s [10] []               -- source-map comment
   else
     let body := commentText q s b.indent text
     let b := b.doIndentNoNl s
